@@ -284,7 +284,10 @@ func (m *Machine) callClosure(caller *frame, c *Closure, args []Value, pos token
 	}()
 	m.depth++
 	if m.depth > 200 {
-		panic(&Inconclusive{"recursion depth bound exceeded in " + fn.String()})
+		// call depth beyond the unwinding bound: on inputs of this size that is unbounded recursion (natively a
+		// stack overflow, which kills the process). Reported as a violation and confirmed by native replay.
+		m.ex.report("unwind", "call depth exceeds the unwinding bound (200): unbounded recursion", m.posStr(pos), fn.String(), m.ex.knownSite("unwind", fn.String()))
+		panic(&PathEnd{"unwind"})
 	}
 	defer func() { m.depth-- }()
 	fi := infoOf(fn)
@@ -1294,6 +1297,17 @@ func (m *Machine) builtin(fr *frame, b *ssa.Builtin, args []Value, pos token.Pos
 		return nil
 	case "recover":
 		return Iface{}
+	case "String": // unsafe.String(ptr *byte, len): a string over the bytes ptr points at (snapshot of the current contents)
+		if p, ok := args[0].(BPtr); ok {
+			if p.obj == nil {
+				return Str{ArrConst(0), i64_0, i64_0}
+			}
+			return Str{p.obj.arr, p.idx, args[1].(*Term)}
+		}
+	case "SliceData": // unsafe.SliceData(b []byte): pointer to the first byte
+		if b, ok := args[0].(BSlice); ok {
+			return BPtr{b.obj, b.off}
+		}
 	}
 	panic(&Inconclusive{"unsupported builtin " + b.Name() + fmt.Sprintf(" %T", args[0])})
 }
